@@ -126,6 +126,10 @@ impl Part for Main {
     fn name(&self) -> &'static str {
         "select"
     }
+    /// engine-internal hash order can make a defect show only on some executions of the same case
+    fn replay_repeats(&self) -> u32 {
+        15
+    }
     fn cases(&self, tier: Tier) -> u32 {
         tier.pick(25_000, 400_000)
     }
@@ -145,6 +149,60 @@ impl Part for Main {
     }
 }
 
+/// ORDER BY / LIMIT over one column that mixes numbers, numeric-looking strings, words and IRIs, with enough
+/// rows for the sort implementation to leave insertion sort: the class in which a non-transitive comparator
+/// shows (same Case type and oracle as the main part).
+struct OrderMixed;
+impl Part for OrderMixed {
+    type Case = Case;
+    fn name(&self) -> &'static str {
+        "order-mixed-kinds"
+    }
+    fn cases(&self, tier: Tier) -> u32 {
+        tier.pick(1500, 40_000)
+    }
+    fn replay_repeats(&self) -> u32 {
+        25
+    }
+    fn strategy(&self, _tier: Tier) -> BoxedStrategy<Case> {
+        let value = prop_oneof![
+            4 => (0i64..40).prop_map(Tm::Num),
+            3 => prop_oneof![Just("1k"), Just("2x"), Just("10a"), Just("3 z"), Just("blue"), Just("red"), Just("9z"), Just("1e"), Just("0x")].prop_map(|s| Tm::Lit(s.to_string())),
+            1 => (0usize..5).prop_map(|i| Tm::Iri(format!("{NS}s{i}"))),
+        ];
+        (proptest::collection::vec((0usize..40, value), 12..70), any::<bool>(), proptest::option::weighted(0.6, 1usize..30), any::<bool>(), any::<bool>())
+            .prop_map(|(rows, desc, limit, second_key, use_prefix)| {
+                let tag = Tm::Iri(format!("{NS}tag"));
+                let data = DataSet { default: rows.into_iter().map(|(s, v)| [Tm::Iri(format!("{NS}n{s}")), tag.clone(), v]).collect(), named: vec![] };
+                let mut order = vec![("c".to_string(), desc)];
+                if second_key {
+                    order.push(("a".to_string(), false));
+                }
+                let query = Select {
+                    distinct: false,
+                    proj: Proj::Items(vec![ProjItem::Var("a".into()), ProjItem::Var("c".into())]),
+                    from: vec![],
+                    from_named: vec![],
+                    body: vec![Elem::Bgp(vec![[PT::Var("a".into()), PT::C(tag), PT::Var("c".into())]])],
+                    group_by: vec![],
+                    order,
+                    limit,
+                };
+                Case { data, query, use_prefix, second_entry: false }
+            })
+            .boxed()
+    }
+    fn check(&self, c: &Case) -> Outcome {
+        let mut o = check_case(c);
+        o.nontrivial = true;
+        o.class("mixed-kind-order-key");
+        o
+    }
+    fn describe(&self, c: &Case) -> serde_json::Value {
+        json!({"query": Printer { use_prefix: c.use_prefix }.query(&c.query), "rows": c.data.default.len()})
+    }
+}
+
 fn main() {
     let mut s = Session::start(
         "C01",
@@ -158,5 +216,6 @@ fn main() {
     s.assume("supported fragment (DESIGN C01 a-f): FILTER/BIND mention only variables certainly bound in their own group; order comparisons only between numeric values; BIND targets fresh variables; aggregates over certainly-bound numeric variables; no empty-string literals");
     s.assume("SELECT * column order = first syntactic appearance (the row API has no header)");
     s.run(&Main);
+    s.run(&OrderMixed);
     std::process::exit(s.finish());
 }
